@@ -35,6 +35,7 @@ Empty == [ from |-> <<>>, sel |-> <<>>, star |-> FALSE, distinct |-> FALSE,
            ins |-> "", cols |-> <<>>, vals |-> <<>>, replace |-> FALSE, selinto |-> FALSE,
            upd |-> "", sets |-> <<>>, del |-> FALSE,
            foreign |-> FALSE, forupd |-> FALSE, fidx |-> <<>>, uidx |-> <<>>,
+           ctes |-> <<>>,
            oc |-> FALSE, ocf |-> <<>>, ocnothing |-> FALSE, ocupd |-> <<>>, ocw |-> <<>>, ocuw |-> <<>> ]
 
 (***************************************************************************)
@@ -42,11 +43,17 @@ Empty == [ from |-> <<>>, sel |-> <<>>, star |-> FALSE, distinct |-> FALSE,
 (***************************************************************************)
 FromSet(b) == {b.from[i] : i \in DOMAIN b.from}
 JoinedSet(b) == {b.joins[i].item : i \in DOMAIN b.joins}
+CteSet(b) == {b.ctes[i] : i \in DOMAIN b.ctes}
 BaseSet(b) == FromSet(b) \cup (IF b.upd # "" THEN {b.upd} ELSE {})
+
 \* the library compares tables by (name, schema, alias): two ids with the same metadata are the same table
 SameTable(x, y) == x = y \/ (x # "" /\ y # "" /\ SrcTab(x).kind = "table" /\ SrcTab(y).kind = "table"
-                              /\ SrcTab(x).name = SrcTab(y).name /\ SrcTab(x).alias = SrcTab(y).alias)
+                              /\ SrcTab(x).name = SrcTab(y).name /\ SrcTab(x).alias = SrcTab(y).alias
+                              /\ SrcTab(x).schema = SrcTab(y).schema)
 InSet(x, S) == \E y \in S : SameTable(x, y)
+\* what a join criterion may refer to: FROM, the updated table, declared CTEs (by name), earlier joins, the joined item
+AvailIn(x, b, item) == \/ InSet(x, BaseSet(b) \cup JoinedSet(b) \cup {item})
+                       \/ (SrcTab(x).kind = "cte" /\ SrcTab(x).name \in CteSet(b))
 CritSources(c) == TablesOf(c)
 
 (***************************************************************************)
@@ -65,7 +72,7 @@ Raises(b, c) ==
             IF b.ocnothing THEN "QueryException"
             ELSE IF b.ocf = <<>> THEN "QueryException" ELSE ""
       [] c.m = "join" ->
-            IF c.kind = "on" /\ ~(\A s \in CritSources(c.crit) : InSet(s, BaseSet(b) \cup JoinedSet(b) \cup {c.item} \cup {""}))
+            IF c.kind = "on" /\ ~(\A s \in CritSources(c.crit) : AvailIn(s, b, c.item))
             THEN "JoinException" ELSE ""
       [] c.m = "top" -> IF c.bad THEN "QueryException" ELSE ""
       [] OTHER -> ""
@@ -107,6 +114,7 @@ Eff(b, c) ==
       [] c.m = "for_update" -> [b EXCEPT !.forupd = TRUE]
       [] c.m = "force_index" -> [b EXCEPT !.fidx = Append(@, c.name)]
       [] c.m = "use_index" -> [b EXCEPT !.uidx = Append(@, c.name)]
+      [] c.m = "with_" -> [b EXCEPT !.ctes = Append(@, c.name)]
       [] c.m = "on_conflict" -> [b EXCEPT !.oc = TRUE, !.ocf = @ \o c.names]
       [] c.m = "do_nothing" -> [b EXCEPT !.ocnothing = TRUE]
       [] c.m = "do_update" -> [b EXCEPT !.ocupd = Append(@, [col |-> c.col, val |-> c.val])]
@@ -120,6 +128,14 @@ Fold(b, calls) == IF calls = <<>> THEN b ELSE Fold(Step(b, Head(calls)), Tail(ca
 \* exception classes along a history
 RECURSIVE RaiseSeq(_, _)
 RaiseSeq(b, calls) == IF calls = <<>> THEN <<>> ELSE <<Raises(b, Head(calls))>> \o RaiseSeq(Step(b, Head(calls)), Tail(calls))
+
+\* exceptions raised by rendering a state (dialects with the generic ON CONFLICT renderer)
+RenderRaises(b, d) ==
+    IF b.oc /\ b.upd = "" /\ d # "mysql"
+       /\ (b.sel # <<>> \/ b.ins # "" \/ b.del) /\ (b.ins # "" => (b.sel # <<>> \/ b.vals # <<>>)) THEN
+        (IF ~b.ocnothing /\ b.ocupd = <<>> THEN (IF b.ocf = <<>> THEN "" ELSE "QueryException")
+         ELSE IF b.ocupd # <<>> /\ b.ocf = <<>> THEN "QueryException" ELSE "")
+    ELSE ""
 
 (***************************************************************************)
 (* What the state denotes                                                   *)
